@@ -263,6 +263,18 @@ def tiny_alphabet():
     return ops
 
 
+def mixed_histories():
+    """thorough tier: every 2-step history with one step from the reduced alphabet (1 068 calls, sequences and
+    operators included) and the other from the tiny alphabet (116 calls), in both orders, from every shape"""
+    red, tny = small_alphabet(True), tiny_alphabet()
+    for name, shape in SHAPES.items():
+        for first, second in ((red, tny), (tny, red)):
+            for a in first:
+                for b in second:
+                    yield {'ids': SHAPE_IDS.get(name, SMALL_IDS), 'nw': SMALL_NW, 'shape': name,
+                           'ops': [list(o) for o in shape] + [list(a), list(b)]}
+
+
 def small_histories(length, reduced=True, tiny=False):
     alpha = tiny_alphabet() if tiny else small_alphabet(reduced)
     for name, shape in SHAPES.items():
